@@ -1014,8 +1014,8 @@ Theorem C05_model d g c :
   build d = Ok g -> compile d g = Ok c ->
   forall r, In r (c_rts c) -> Forall2 paired (cr_in r) (cr_out r).
 Proof.
-  intros Hb Hc r Hr. unfold compile in Hc. inv_bind Hc. inversion Hc; subst c; clear Hc. cbn in Hr.
-  destruct (mapM_In _ _ _ _ E3 Hr) as (p & _ & Hp).
+  intros Hb Hc r Hr. destruct (compile_inv _ _ _ Hc) as (dirs & nis & rts & rids & _ & Hrts & ->). cbn in Hr.
+  destruct (mapM_In _ _ _ _ Hrts Hr) as (p & _ & Hp). cbv beta in Hp.
   eapply compile_router_paired; [|exact Hp]. apply ginv_mirrored. eapply build_ginv; eauto.
 Qed.
 
@@ -1100,8 +1100,8 @@ Proof.
   intros Hb Hc Hr Hx i Hi.
   pose proof (C05_model _ _ _ Hb Hc r Hr) as Hp.
   assert (Hends : slots_all (fun l => snd l = cr_name r) (cr_in r)).
-  { unfold compile in Hc. inv_bind Hc. inversion Hc; subst c; clear Hc. cbn in Hr.
-    destruct (mapM_In _ _ _ _ E3 Hr) as (p & _ & Hq). apply compile_router_in_ends in Hq. destruct Hq as (-> & Hq). exact Hq. }
+  { destruct (compile_inv _ _ _ Hc) as (dirs & nis & rts & rids & _ & Hrts & ->). cbn in Hr.
+    destruct (mapM_In _ _ _ _ Hrts Hr) as (p & _ & Hq). cbv beta in Hq. apply compile_router_in_ends in Hq. destruct Hq as (-> & Hq). exact Hq. }
   unfold emit_rt in Hx. cbv zeta in Hx. inv_bind Hx. inversion Hx; subst x; clear Hx. unfold port_wired. cbn.
   destruct (nth_error (cr_in r) i) as [sa|] eqn:Ea; [|apply nth_error_None in Ea; lia].
   destruct (Forall2_nth_error _ _ _ _ _ Hp Ea) as (sb & Eb & Hab).
